@@ -20,7 +20,7 @@ FOLD_OPS = [  # (name, production head regex)
 ]
 VM_OPS = ["OP_INT_ADD", "OP_INT_SUB", "OP_INT_MUL", "OP_INT_DIV", "OP_MOD", "OP_BITWISE_XOR", "OP_BITWISE_AND",
           "OP_BITWISE_OR", "OP_SHL", "OP_SHR", "OP_INT_MINUS", "OP_BITWISE_NOT",
-          "OP_INT_EQ", "OP_INT_NEQ", "OP_INT_LT", "OP_INT_GT", "OP_INT_LE", "OP_INT_GE"]
+          "OP_INT_EQ", "OP_INT_NEQ", "OP_INT_LT", "OP_INT_GT", "OP_INT_LE", "OP_INT_GE", "OP_AND", "OP_OR", "OP_NOT"]
 REDUCE_OPS = {"add": "+", "sub": "-", "mul": "*", "div": "\\\\"}
 
 
@@ -146,6 +146,8 @@ class Emitter:
             tgt = cexpr.spelling(s[1])
             if tgt in ("$$.value.integer", "r1.i"):
                 return self.set_value(s[2])
+            if tgt == "r2.i":
+                return "(s_set_result %s)" % self.ex(s[2])
             if tgt == "result":
                 if self.opaque_success(s[2]):
                     return "(s_set_result (fun s : fstate => CVal 0))"
@@ -236,7 +238,7 @@ def gen_fold():
         env = dict(COMMON_ENV)
         if pops == ["r2", "r1"]:
             unary = False
-            env["r2.i"] = "(CVal b)"
+            env["r2.i"] = "(CVal (f_result s))"     # r2 lives in the (otherwise unused) result field of the state
         elif pops == ["r1"]:
             unary = True
         else:
@@ -247,8 +249,8 @@ def gen_fold():
         except cexpr.ParseError as e:
             raise GenError("translator cannot translate exec.c case %s: %s" % (op, e))
         args = "(a : Z)" if unary else "(a b : Z)"
-        out.append("Definition vm_%s %s : vmres :=\n  run_stmt %s vm_result {| f_result := 0; f_value := Some a; f_status := Running |}.\n\n"
-                   % (op, args, term))
+        out.append("Definition vm_%s %s : vmres :=\n  run_stmt %s vm_result {| f_result := %s; f_value := Some a; f_status := Running |}.\n\n"
+                   % (op, args, term, "0" if unary else "b"))
     # opcode chosen by yr_parser_reduce_operation for integer operands: evaluated by running parser.c's own function
     b = build.ensure_build("plain")
     prog = '#include <stdio.h>\n#include "parser.c"\nint main(){\n' + "".join(
@@ -286,3 +288,66 @@ def gen_tables():
         raise GenError("translator cannot evaluate character tables: " + err[:400])
     return ("(* GENERATED by lib/genfold.py from the library's own tables: do not edit *)\n"
             "From Coq Require Import NArith List.\nImport ListNotations.\n\n" + res)
+
+
+TOKSYM = {"_OR_": "or", "_AND_": "and", "_NOT_": "not", "_DEFINED_": "defined", "_EQ_": "==", "_NEQ_": "!=",
+          "_CONTAINS_": "contains", "_ICONTAINS_": "icontains", "_STARTSWITH_": "startswith", "_ENDSWITH_": "endswith",
+          "_ISTARTSWITH_": "istartswith", "_IENDSWITH_": "iendswith", "_IEQUALS_": "iequals", "_MATCHES_": "matches",
+          "_LT_": "<", "_LE_": "<=", "_GT_": ">", "_GE_": ">=", "'|'": "|", "'^'": "^", "'&'": "&",
+          "_SHIFT_LEFT_": "<<", "_SHIFT_RIGHT_": ">>", "'+'": "+", "'-'": "-", "'*'": "*", "'\\\\'": "\\", "'%'": "%",
+          "'~'": "~", "UNARY_MINUS": "neg"}
+
+
+@gen.register("GenPrec.v")
+def gen_prec():
+    """operator precedence/associativity: grammar.y's %left/%right declarations and the manual's table"""
+    gy = open(os.path.join(REPO, "libyara", "grammar.y"), encoding="latin-1").read()
+    levels = []
+    for m in re.finditer(r"^%(left|right)\s+(.*)$", gy, re.M):
+        toks = m.group(2).split()
+        syms = []
+        for t in toks:
+            if t not in TOKSYM:
+                raise GenError("translator cannot map grammar token %s" % t)
+            syms.append(TOKSYM[t])
+        levels.append((sorted(syms), m.group(1)))
+    levels.reverse()    # highest precedence first, like the manual
+    doc = open(os.path.join(REPO, "docs", "writingrules.rst"), encoding="latin-1").read()
+    i = doc.index("Precedence  Operator")
+    tbl = doc[i:]
+    tbl = tbl[tbl.index("\n") + 1:]
+    tbl = tbl[tbl.index("\n") + 1:]          # skip the ==== line
+    end = re.search(r"^==========", tbl, re.M).start()
+    rows = []
+    cur = None
+    for line in tbl[:end].split("\n"):
+        if line.startswith("----------"):
+            cur = None
+            continue
+        if not line.strip():
+            continue
+        m = re.match(r"^(\d+)?\s+(\S+)\s+(.*?)(Left-to-right|Right-to-left)?\s*$", line)
+        if not m:
+            raise GenError("translator cannot parse manual precedence row %r" % line)
+        op = m.group(2).strip("`")
+        if m.group(1):
+            cur = [[], "left" if m.group(4) == "Left-to-right" else "right"]
+            rows.append(cur)
+        if cur is None:
+            raise GenError("translator cannot parse manual precedence table near %r" % line)
+        desc = m.group(3)
+        if op == "-" and "Unary" in desc:
+            op = "neg"
+        if op == "\\\\":
+            op = "\\"
+        cur[0].append(op)
+    man = [(sorted(r[0]), r[1]) for r in rows if r[0] != ["[]", "."] and sorted(r[0]) != sorted(["[]", "."])]
+
+    def fmt(lv):
+        return "[" + "; ".join('([%s], %s)' % ("; ".join('"%s"' % s.replace("\\", "\\\\") if False else '"%s"' % s for s in ops),
+                                                  "true" if assoc == "left" else "false") for ops, assoc in lv) + "]"
+    return ("(* GENERATED by lib/genfold.py from libyara/grammar.y and docs/writingrules.rst: do not edit *)\n"
+            "From Coq Require Import String List Bool.\nImport ListNotations.\nOpen Scope string_scope.\n\n"
+            "(* (operators of one level, left associative?) from highest to lowest precedence *)\n"
+            "Definition grammar_levels : list (list string * bool) :=\n  %s.\n\n"
+            "Definition manual_levels : list (list string * bool) :=\n  %s.\n" % (fmt(levels), fmt(man)))
